@@ -131,8 +131,31 @@ func ext۰proto۰Clone(fr *frame, args []value) value {
 	return iface{t: m.t, v: deepCopy(m.v, map[*value]*value{})}
 }
 
+// time.Now: a deterministic, strictly increasing clock (one tick per call).
+// Contract assumed: wall-clock time is non-decreasing; no harness observes
+// its value.
+func ext۰time۰Now(fr *frame, args []value) value {
+	cx := fr.i.cx
+	cx.clock++
+	return structure{uint64(0), int64(63_000_000_000) + cx.clock, (*value)(nil)}
+}
+
+func ext۰time۰Since(fr *frame, args []value) value {
+	cx := fr.i.cx
+	cx.clock++
+	t := args[0].(structure)
+	ext, _ := t[1].(int64)
+	d := (int64(63_000_000_000) + cx.clock - ext) * 1_000_000_000
+	if d < 0 {
+		d = 0
+	}
+	return d
+}
+
 func init() {
 	for k, v := range map[string]externalFn{
+		"time.Now":   ext۰time۰Now,
+		"time.Since": ext۰time۰Since,
 		"google.golang.org/protobuf/proto.Marshal":   ext۰proto۰Marshal,
 		"google.golang.org/protobuf/proto.Unmarshal": ext۰proto۰Unmarshal,
 		"google.golang.org/protobuf/proto.Clone":     ext۰proto۰Clone,
